@@ -642,13 +642,16 @@ Definition float_result (f : fval) : fval :=
 Lemma float_result_den f : fden (float_result f) = fden f.
 Proof. destruct f; [reflexivity|apply big_result_den|reflexivity]. Qed.
 
+Lemma small_comp_spec z : small_comp z = true -> Z.abs z < comp_limit.
+Proof. unfold small_comp. intros H. apply Z.ltb_lt. exact H. Qed.
+
 Lemma wf_rat n d : wf_fval (FRat n d) = true ->
   Z.gcd n (Z.pos d) = 1 /\ Z.abs n < comp_limit /\ Z.pos d < comp_limit.
 Proof.
   intros W. cbn [wf_fval] in W.
   destruct (andb_prop _ _ W) as [W12 W3]. destruct (andb_prop _ _ W12) as [W1 W2].
-  split; [apply Z.eqb_eq; exact W1|]. split; [apply Z.ltb_lt; exact W2|].
-  rewrite <- (Z.abs_eq (Z.pos d)) by lia. apply Z.ltb_lt. exact W3.
+  split; [apply Z.eqb_eq; exact W1|]. split; [apply small_comp_spec; exact W2|].
+  pose proof (small_comp_spec _ W3) as H3. rewrite Z.abs_eq in H3 by lia. exact H3.
 Qed.
 
 Lemma unmarshal_fval f : wf_fval f = true ->
